@@ -12,6 +12,7 @@ import (
 	"strings"
 
 	orbitdb "berty.tech/go-orbit-db"
+	"berty.tech/go-orbit-db/accesscontroller"
 	"berty.tech/go-orbit-db/address"
 	"berty.tech/go-orbit-db/iface"
 )
@@ -167,6 +168,69 @@ func (w *World) execAddrOp(ctx context.Context, toks []string) (bool, error) {
 			ow = fmt.Sprint(*opts.Overwrite)
 		}
 		w.printf("reuseopts %d first=%s second=%s overwrite=%s\n", p, first, second, ow)
+	case "reuseac":
+		// reuseac p q <namehex> <kind> : ONE (empty) access controller parameters value, handed first to
+		// peer p's DetermineAddress and then to peer q's Create of another name: with no write list given the
+		// creator's own id is the default — q's, not the id p's call left behind in the shared value
+		p, q := atoi(toks[1]), atoi(toks[2])
+		base := w.expandName(toks[3])
+		st := storeTypeOf(toks[4])
+		ac := accesscontroller.NewEmptyManifestParams()
+		first, second, wl := "err", "err", "-"
+		if _, err := w.peers[p].odb.DetermineAddress(ctx, base+"-shared-ac-a", st, &orbitdb.DetermineAddressOptions{AccessController: ac}); err == nil {
+			first = "ok"
+		}
+		if s2, err := w.peers[q].odb.Create(ctx, base+"-shared-ac-b", st, &orbitdb.CreateDBOptions{AccessController: ac}); err == nil {
+			second = "ok"
+			ids, _ := s2.AccessController().GetAuthorizedByRole("write")
+			var ws []string
+			for _, id := range ids {
+				if id == "*" {
+					ws = append(ws, "*")
+				} else {
+					ws = append(ws, fmt.Sprint(w.peerOfIdentID(id)))
+				}
+			}
+			sort.Strings(ws)
+			wl = joinOrDash(ws)
+			_ = s2.Close()
+		}
+		left := "-"
+		if ac.GetName() != "" || ac.GetType() != "" || len(ac.GetAllAccess()) != 0 {
+			left = hx([]byte(fmt.Sprintf("name=%q type=%q access=%d", ac.GetName(), ac.GetType(), len(ac.GetAllAccess()))))
+		}
+		w.printf("reuseac %d %d first=%s second=%s write=%s left=%s\n", p, q, first, second, wl, left)
+	case "reusefront":
+		// reusefront p <namehex> <kind> : ONE options value, handed first to the typed front end (Log,
+		// KeyValue, Docs: "open or create" of that type) and then to a plain Open of a name that was never
+		// created: the caller never set Create, the open of an unknown name must be refused
+		p := atoi(toks[1])
+		base := w.expandName(toks[2])
+		opts := w.dbOpts(p)
+		first, second := "err", "err"
+		var s1 iface.Store
+		var err error
+		switch toks[3] {
+		case "kv":
+			s1, err = w.peers[p].odb.KeyValue(ctx, base+"-front", opts)
+		case "doc":
+			s1, err = w.peers[p].odb.Docs(ctx, base+"-front", opts)
+		default:
+			s1, err = w.peers[p].odb.Log(ctx, base+"-front", opts)
+		}
+		if err == nil {
+			first = "ok"
+			_ = s1.Close()
+		}
+		if s2, err := w.peers[p].odb.Open(ctx, base+"-front-never-created", opts); err == nil {
+			second = "ok"
+			_ = s2.Close()
+		}
+		cr := "unset"
+		if opts.Create != nil {
+			cr = fmt.Sprint(*opts.Create)
+		}
+		w.printf("reusefront %d first=%s second=%s create=%s\n", p, first, second, cr)
 	case "openaddr":
 		// openaddr p <strhex with @rN@> [localonly]
 		p := atoi(toks[1])
